@@ -5,6 +5,7 @@ import (
 	"fmt"
 	"os"
 
+	"verif/cfgcheck"
 	"verif/core"
 	"verif/progcheck"
 	"verif/rtcheck"
@@ -23,6 +24,8 @@ var checks = map[string]func(tier string) *core.Report{
 	"C18": progcheck.C18,
 	"C13": progcheck.C13,
 	"C14": progcheck.C14,
+	"C15": cfgcheck.C15,
+	"C16": cfgcheck.C16,
 	"C17": progcheck.C17,
 	"C08": rtcheck.C08,
 	"C09": rtcheck.C09,
